@@ -431,19 +431,63 @@ theorem best_outcome (pop : Pop F) (hev : Evaluated pop) :
       subst this; exact absurd hfst.symm hp
     | some m => exact ⟨m.1, rfl⟩
 
-theorem de_outcome (O : Ops F) (y : Nat) (ss : List (List Nat)) (pop : Pop F) (hev : Evaluated pop) :
+/-- a legal "best" position: `None` exactly on the empty population, never a panic on evaluated input -/
+theorem bestAt_outcome (pop : Pop F) (hev : Evaluated pop) (i : Nat) (hb : BestIdx pop i) :
+    (pop = [] → bestAt pop i = .ok none) ∧ (pop ≠ [] → ∃ b, bestAt pop i = .ok (some b)) := by
+  obtain ⟨ks, hks⟩ := withKeys_isSome_of_evaluated hev
+  simp only [bestAt, hks]
+  constructor
+  · intro hp; subst hp; rfl
+  · intro hp
+    rcases hb with rfl | ⟨x, _, hx, _⟩
+    · exact absurd rfl hp
+    · exact ⟨x, by rw [hx]⟩
+
+/-- The code's own choice (`min_by_key`: the first minimum) is a legal "best" position, and the model run
+with that position does what `best` does. -/
+theorem best_is_legal_choice (pop : Pop F) (b : Ind F) (h : best pop = .ok (some b)) :
+    ∃ i, pop[i]? = some b ∧ BestIdx pop i ∧ bestAt pop i = best pop := by
+  simp only [best] at h
+  cases hk : withKeys pop with
+  | none => simp [hk] at h
+  | some ks =>
+    simp only [hk] at h
+    injection h with h
+    cases hm : firstMin ks with
+    | none => simp [hm] at h
+    | some m =>
+      simp only [hm, Option.map_some, Option.some.injEq] at h
+      obtain ⟨h1, pre, post, h2, _⟩ := firstMin_spec hm
+      have hfst := withKeys_map_fst hk
+      have hobj := withKeys_obj hk
+      have hget : pop[pre.length]? = some b := by
+        rw [← hfst, h2, ← h]; simp
+      refine ⟨pre.length, hget, Or.inr ⟨b, m.2, hget, ?_, ?_⟩, ?_⟩
+      · rw [← h]; exact hobj m (firstMin_mem hm)
+      · intro x hx c hc
+        rw [← hfst] at hx
+        obtain ⟨p, hp, rfl⟩ := List.mem_map.mp hx
+        have := hobj p hp
+        rw [this] at hc; injection hc with hc; subst hc
+        exact h1 p hp
+      · simp only [bestAt, best, hk, hm, Option.map_some, hget, h]
+
+theorem de_rand_outcome (O : Ops F) (y : Nat) (ss : List (List Nat)) (pop : Pop F) :
     (select O (.deRand y) (.sets ss) pop = .error .exec ↔ pop.length < 2 * y + 1) ∧
-    select O (.deRand y) (.sets ss) pop ≠ .error .panic ∧
-    (select O (.deBest y) (.sets ss) pop = .error .exec ↔ pop.length < 2 * y ∨ pop = []) ∧
-    select O (.deBest y) (.sets ss) pop ≠ .error .panic ∧
-    (select O (.deCurrentToBest y) (.sets ss) pop = .error .exec ↔
+    select O (.deRand y) (.sets ss) pop ≠ .error .panic := by
+  rw [select_deRand]
+  by_cases h : pop.length < 2 * y + 1 <;> simp [h]
+
+theorem de_outcome (O : Ops F) (y bi : Nat) (ss : List (List Nat)) (pop : Pop F) (hev : Evaluated pop)
+    (hbi : BestIdx pop bi) :
+    (select O (.deBest y) (.setsBest bi ss) pop = .error .exec ↔ pop.length < 2 * y ∨ pop = []) ∧
+    select O (.deBest y) (.setsBest bi ss) pop ≠ .error .panic ∧
+    (select O (.deCurrentToBest y) (.setsBest bi ss) pop = .error .exec ↔
       pop = [] ∨ ∃ ind ∈ pop, (pop.filter (fun j => !sameInd j ind)).length < 2 * y - 1) ∧
-    select O (.deCurrentToBest y) (.sets ss) pop ≠ .error .panic := by
-  obtain ⟨hb1, hb2⟩ := best_outcome pop hev
-  rw [select_deRand, select_deBest, select_deCurrentToBest]
-  refine ⟨?_, ?_, ?_, ?_, ?_, ?_⟩
-  · by_cases h : pop.length < 2 * y + 1 <;> simp [h]
-  · by_cases h : pop.length < 2 * y + 1 <;> simp [h]
+    select O (.deCurrentToBest y) (.setsBest bi ss) pop ≠ .error .panic := by
+  obtain ⟨hb1, hb2⟩ := bestAt_outcome pop hev bi hbi
+  rw [select_deBest, select_deCurrentToBest]
+  refine ⟨?_, ?_, ?_, ?_⟩
   · by_cases h : pop.length < 2 * y
     · simp [h]
     · by_cases hp : pop = []
